@@ -164,7 +164,7 @@ func runMultiWrappers(c *fw.Ctx) {
 		{"exponential", "normal", "gev"}, {"gev", "gengamma", "exponential"}, {"gev", "gev", "gev"},
 		{"exponential", "normal", "gev", "gengamma"}, {"gengamma", "cauchy", "exponential", "gev"},
 	}
-	c.Cases("wrap.mixture.hetero", c.N(200, 2500), func(cs *fw.Case) {
+	c.Cases("wrap.mixture.hetero", c.N(200, 2000), func(cs *fw.Case) {
 		r := cs.R
 		var names []string
 		if cs.Index < len(hetero) {
@@ -224,7 +224,7 @@ func runMultiWrappers(c *fw.Ctx) {
 	})
 
 	/* vector level: Mixture, VectorId, VectorIid */
-	c.Cases("mvwrap.vector", c.N(240, 3000), func(cs *fw.Case) {
+	c.Cases("mvwrap.vector", c.N(240, 2000), func(cs *fw.Case) {
 		r := cs.R
 		kind := []string{"vmixture", "vid", "viid"}[cs.Index%3]
 		n := r.Range(1, 3)
@@ -346,7 +346,7 @@ func runMultiWrappers(c *fw.Ctx) {
 	})
 
 	/* matrix level: Mixture, VectorId, VectorIid */
-	c.Cases("mvwrap.matrix", c.N(240, 3000), func(cs *fw.Case) {
+	c.Cases("mvwrap.matrix", c.N(240, 2000), func(cs *fw.Case) {
 		r := cs.R
 		kind := []string{"mmixture", "mid", "miid"}[cs.Index%3]
 		n := r.Range(1, 3) // the arguments are n x n matrices
